@@ -57,7 +57,7 @@ class PSFModelMachine(Machine):
     def make_cfg(self, rng, avoid):
         ovs = rng.pick([1, 2, 3, 4, [2, 3], [1, 4]])
         cfg = {'oversampling': ovs,
-               'fill_value': rng.pick([0.0, 0.0, None, -1.0]),
+               'fill_value': rng.pick([0.0, 0.0, None, -1.0, 0, -1]),
                'shape': [rng.pick([7, 8, 9, 12, 13]),
                          rng.pick([7, 8, 9, 12, 13])]}
         if self.variant == 'image':
@@ -179,7 +179,7 @@ class PSFModelMachine(Machine):
                 names += ['origin']
             nm = rng.pick(names)
             if nm == 'fill_value':
-                val = rng.pick([0.0, None, -1.0, 2.5])
+                val = rng.pick([0.0, None, -1.0, 2.5, 0, -999])
             elif nm == 'oversampling':
                 val = rng.pick([1, 2, 3, [2, 3], 4])
             else:
@@ -200,6 +200,8 @@ class PSFModelMachine(Machine):
             return {'op': 'bbox', 'actor': k}
         if r < 0.97 and self.variant == 'gridded':
             return {'op': 'reject3d', 'actor': k}
+        if r < 0.985:
+            return {'op': 'decoy', 'actor': k}
         return self._gen_set(rng, st, k)
 
     def _gen_set(self, rng, st, k):
@@ -397,6 +399,25 @@ class PSFModelMachine(Machine):
             if d:
                 raise Violation('reference', 'bounding_box',
                                 f'{got} vs {exp}')
+            return
+        if kind == 'decoy':
+            # another, unrelated model of the same class in the same
+            # process: same grid / shape, different pixel values, evaluated
+            # where this family is evaluated.  Nothing it does may change
+            # what the models under test return.
+            import copy as _c
+            sc2 = dict(st.scene)
+            d = dec(st.scene['data'])
+            sc2['data'] = enc(d[..., ::-1, ::-1] * 1.7 + 0.013)
+            st2 = _c.copy(st)
+            st2.scene = sc2
+            other = call(self._build, st2, a.p, a.a)
+            if not isinstance(other, Raised):
+                x, y = self._coords(st, a, {'grid': 'frac', 'n': 3,
+                                            'jit': [0.1, -0.2]})
+                call(other, x, y)
+                call(other.copy(), x, y)
+            st.stats.probe('decoy_instance_evaluated')
             return
         if kind == 'reject3d':
             x = np.zeros((2, 2, 2))
